@@ -59,7 +59,7 @@ class Gen:
             "faults": [],
             "p_fault": float(r.uniform(0.05, 0.3)),
             "routes": ["clone", "setp"] if r.random() < (0.5 if thorough else 0.25) else [],
-            "pristine": bool(r.random() < (0.5 if thorough else 0.3)),
+            "pristine": bool(r.random() < float(__import__("os").environ.get("VERIF_PRISTINE_P", 0.9 if thorough else 0.7))),
             "share": float(r.uniform(0.3, 0.95)),
         }
         if r.random() >= 0.4:
